@@ -53,12 +53,18 @@ type scenario struct {
 	ctxAware bool
 	// requests sent by a raw-socket client that offers the h2c upgrade (what curl --http2 sends)
 	h2c map[int]bool
+	// requests that are held by a user middleware (Config.Middlewares; a wrapper for the plain handler)
+	// BEFORE the router's endpoint handler runs: "accepted" is stamped in the middleware
+	mid map[int]bool
+	// kind of context handed to the runner: cancel (WithCancel) | dl_cancel (WithTimeout, cancelled by hand)
+	// | dl_expire (WithTimeout that expires at the cancel step) | dl_child (WithCancel child of such a context)
+	ctxKind string
 	// ServiceConfig timeouts handed to the runner (0 = unset)
 	idle, read, write, readHeader time.Duration
 }
 
 func (s *scenario) cfgString() string {
-	return fmt.Sprintf("ctx_aware=%v idle=%v read=%v write=%v read_header=%v", s.ctxAware, s.idle, s.read, s.write, s.readHeader)
+	return fmt.Sprintf("ctx_aware=%v idle=%v read=%v write=%v read_header=%v ctx=%s", s.ctxAware, s.idle, s.read, s.write, s.readHeader, s.ctxKind)
 }
 
 // the longest of the small timeouts (write excluded: it is only set small when no request is gated)
@@ -120,6 +126,7 @@ func bound(d time.Duration) time.Duration {
 var tokenCounter atomic.Int64
 
 type reqSpec struct {
+	mid                          bool
 	id                           int
 	size                         int
 	split                        bool
@@ -204,7 +211,10 @@ func (w *world) plainHandler() http.Handler {
 			http.NotFound(rw, req)
 			return
 		}
-		sp := w.enter(id)
+		sp := w.spec(id)
+		if !sp.mid {
+			w.enter(id)
+		}
 		body := expectedBody(id, sp.size)
 		k := 0
 		if sp.split && len(body) > 1 {
@@ -242,7 +252,10 @@ func (w *world) proxyFactory() proxy.Factory {
 			if err != nil {
 				return nil, errors.New("bad id")
 			}
-			sp := w.enter(id)
+			sp := w.spec(id)
+			if !sp.mid {
+				w.enter(id)
+			}
 			if w.ctxAware {
 				select {
 				case <-sp.gate:
@@ -265,6 +278,27 @@ func (w *world) ginEngine(sc config.ServiceConfig) *gin.Engine {
 	h := make(chan string)
 	close(h)
 	return krakendgin.NewEngine(sc, krakendgin.EngineOptions{Logger: capLogger{w}, Writer: io.Discard, Health: h})
+}
+
+// the user middleware: a request flagged mid is accepted here and held on its gate before next
+func (w *world) holdInMiddleware(req *http.Request) {
+	id, err := strconv.Atoi(req.URL.Query().Get("id"))
+	if err != nil || !strings.HasPrefix(req.URL.Path, "/t"+w.token+"/") {
+		return
+	}
+	if sp := w.spec(id); sp.mid {
+		w.enter(id)
+		<-sp.gate
+	}
+}
+
+type muxMid struct{ w *world }
+
+func (m muxMid) Handler(h http.Handler) http.Handler {
+	return http.HandlerFunc(func(rw http.ResponseWriter, req *http.Request) {
+		m.w.holdInMiddleware(req)
+		h.ServeHTTP(rw, req)
+	})
 }
 
 type capLogger struct{ w *world }
@@ -309,12 +343,12 @@ func (w *world) runRunner(ctx context.Context, s *scenario, port int, run runFun
 	sc.IdleTimeout, sc.ReadTimeout, sc.WriteTimeout, sc.ReadHeaderTimeout = s.idle, s.read, s.write, s.readHeader
 	switch flavor {
 	case "Plain":
-		return classify(run(ctx, sc, w.plainHandler()))
+		return classify(run(ctx, sc, muxMid{w}.Handler(w.plainHandler())))
 	case "Gin":
-		krakendgin.NewFactory(krakendgin.Config{Engine: w.ginEngine(sc), Middlewares: []gin.HandlerFunc{}, HandlerFactory: krakendgin.EndpointHandler,
+		krakendgin.NewFactory(krakendgin.Config{Engine: w.ginEngine(sc), Middlewares: []gin.HandlerFunc{func(c *gin.Context) { w.holdInMiddleware(c.Request); c.Next() }}, HandlerFactory: krakendgin.EndpointHandler,
 			ProxyFactory: w.proxyFactory(), Logger: capLogger{w}, RunServer: run}).NewWithContext(ctx).Run(sc)
 	case "Mux":
-		mux.NewFactory(mux.Config{Engine: mux.DefaultEngine(), Middlewares: []mux.HandlerMiddleware{}, HandlerFactory: mux.EndpointHandler,
+		mux.NewFactory(mux.Config{Engine: mux.DefaultEngine(), Middlewares: []mux.HandlerMiddleware{muxMid{w}}, HandlerFactory: mux.EndpointHandler,
 			ProxyFactory: w.proxyFactory(), Logger: capLogger{w}, RunServer: run}).NewWithContext(ctx).Run(sc)
 	}
 	// the routers swallow the runner's value and log it
@@ -344,6 +378,23 @@ func (w *world) attempt(cl *http.Client, flavor string, port, id int) string {
 	}
 	body, err := io.ReadAll(resp.Body)
 	resp.Body.Close()
+	if err != nil {
+		return fmt.Sprintf("fail: status %d, %d bytes, then %v", resp.StatusCode, len(body), err)
+	}
+	return judge(flavor, id, sp.size, resp.StatusCode, body)
+}
+
+// finishSlow sends the rest of the request head on a connection opened by slow_open and reads the answer
+func (w *world) finishSlow(c net.Conn, flavor string, id int) string {
+	sp := w.spec(id)
+	if _, err := io.WriteString(c, "X-Rest: two\r\nConnection: close\r\n\r\n"); err != nil {
+		return "fail: " + err.Error()
+	}
+	resp, err := http.ReadResponse(bufio.NewReader(c), &http.Request{Method: "GET"})
+	if err != nil {
+		return "fail: " + err.Error()
+	}
+	body, err := io.ReadAll(resp.Body)
 	if err != nil {
 		return fmt.Sprintf("fail: status %d, %d bytes, then %v", resp.StatusCode, len(body), err)
 	}
@@ -475,9 +526,16 @@ type group struct {
 }
 
 func runGroup(g *group, members []*scenario) []*result {
-	ports, stalls := 0, 0
+	ports, stalls, longer := 0, 0, 0
 	for ports < 50 {
-		res, retry := runGroupOnce(g, members)
+		res, retry, early := runGroupOnce(g, members, (80*time.Millisecond)<<longer)
+		if early && longer < 8 {
+			longer++
+			if os.Getenv("C19_DEBUG") != "" {
+				fmt.Fprintf(os.Stderr, "expired early (%d): %s %s | %s\n", longer, members[0].flavor, members[0].cfgString(), scriptString(members[0].script))
+			}
+			continue
+		}
 		if retry {
 			ports++
 			continue
@@ -499,14 +557,22 @@ func runGroup(g *group, members []*scenario) []*result {
 	return nil
 }
 
-func runGroupOnce(g *group, members []*scenario) ([]*result, bool) {
+func runGroupOnce(g *group, members []*scenario, expiry time.Duration) ([]*result, bool, bool) {
 	var run runFunc
 	if g.shared {
 		run = server.RunServerWithLoggerFactory(nil)
 	}
+	// a member that is cancelled later must have a later deadline: the waits for the earlier expiries
+	// are part of its own prefix
+	rank := map[int]int{}
+	for _, gs := range g.order {
+		if _, seen := rank[gs.srv]; gs.st.op == "cancel" && !seen {
+			rank[gs.srv] = len(rank)
+		}
+	}
 	insts := make([]*inst, len(members))
 	for i, s := range members {
-		insts[i] = newInst(s, run)
+		insts[i] = newInst(s, run, expiry<<(2*rank[i]))
 	}
 	cleanupAll := func() {
 		for _, in := range insts {
@@ -516,7 +582,7 @@ func runGroupOnce(g *group, members []*scenario) ([]*result, bool) {
 	for _, gs := range g.order {
 		if insts[gs.srv].do(gs.st) {
 			cleanupAll()
-			return nil, true
+			return nil, true, insts[gs.srv].expiredEarly
 		}
 	}
 	retry := false
@@ -526,13 +592,13 @@ func runGroupOnce(g *group, members []*scenario) ([]*result, bool) {
 	}
 	cleanupAll()
 	if retry {
-		return nil, true
+		return nil, true, false
 	}
 	res := make([]*result, len(insts))
 	for i, in := range insts {
 		res[i] = in.result()
 	}
-	return res, false
+	return res, false, false
 }
 
 // one server under test with its clients
@@ -555,13 +621,17 @@ type inst struct {
 	counts          []string
 	nextPoll        int
 	fins            map[int]chan struct{}
+	slow            map[int]net.Conn
+	expiredEarly    bool
 	cleaned         bool
 }
 
-func newInst(s *scenario, run runFunc) *inst {
+type ctxKey struct{}
+
+func newInst(s *scenario, run runFunc, expiry time.Duration) *inst {
 	w := &world{ctxAware: s.ctxAware, token: fmt.Sprintf("%d-%d", os.Getpid(), tokenCounter.Add(1)), specs: map[int]*reqSpec{}, clients: map[string]string{}}
 	for id, size := range s.sizes {
-		sp := &reqSpec{id: id, size: size, split: s.split[id], gate: make(chan struct{}), entered: make(chan struct{}), finished: make(chan struct{})}
+		sp := &reqSpec{mid: s.mid[id], id: id, size: size, split: s.split[id], gate: make(chan struct{}), entered: make(chan struct{}), finished: make(chan struct{})}
 		if id >= 40 {
 			close(sp.gate) // late attempts never block
 			sp.gateOnce.Do(func() {})
@@ -579,7 +649,7 @@ func newInst(s *scenario, run runFunc) *inst {
 		fmt.Fprintln(os.Stderr, "C19: cannot bind:", err)
 		os.Exit(3)
 	}
-	in := &inst{s: s, w: w, run: run, port: hl.Addr().(*net.TCPAddr).Port, returned: make(chan struct{}), nextPoll: 100, fins: map[int]chan struct{}{}}
+	in := &inst{s: s, w: w, run: run, port: hl.Addr().(*net.TCPAddr).Port, returned: make(chan struct{}), nextPoll: 100, fins: map[int]chan struct{}{}, slow: map[int]net.Conn{}}
 	if !s.portHeld {
 		hl.Close()
 	} else {
@@ -594,7 +664,18 @@ func newInst(s *scenario, run runFunc) *inst {
 	// may run its handler and drop the answer; Go clients retry such requests)
 	in.trFresh = &http.Transport{DisableKeepAlives: true}
 	in.clFresh = &http.Client{Transport: in.trFresh, Timeout: clientTimeout}
-	in.ctx, in.cancel = context.WithCancel(context.Background())
+	switch s.ctxKind {
+	case "dl_cancel":
+		in.ctx, in.cancel = context.WithTimeout(context.Background(), 10*time.Minute)
+	case "dl_expire":
+		in.ctx, in.cancel = context.WithTimeout(context.Background(), expiry)
+	case "dl_child":
+		parent, pc := context.WithTimeout(context.Background(), expiry)
+		child, cc := context.WithCancel(context.WithValue(parent, ctxKey{}, "c19"))
+		in.ctx, in.cancel = child, func() { cc(); pc() }
+	default:
+		in.ctx, in.cancel = context.WithCancel(context.Background())
+	}
 	return in
 }
 
@@ -628,6 +709,9 @@ func (in *inst) cleanup() {
 	}
 	if in.hl != nil {
 		in.hl.Close()
+	}
+	for _, c := range in.slow {
+		c.Close()
 	}
 	in.tr.CloseIdleConnections()
 	in.trFresh.CloseIdleConnections()
@@ -710,8 +794,18 @@ func (in *inst) do(st step) bool {
 		sp.gateOnce.Do(func() { close(sp.gate) })
 		select {
 		case <-sp.entered:
+			fin := in.fins[st.r]
+			if fin == nil {
+				fin = make(chan struct{})
+			}
 			select {
 			case <-sp.finished:
+			case <-fin:
+				select {
+				case <-sp.finished:
+				default:
+					w.note(fmt.Sprintf("release %d: the client has its outcome but the handler never finished", st.r))
+				}
 			case <-time.After(bound(waitStep)):
 				w.note(fmt.Sprintf("release %d: handler did not finish", st.r))
 			}
@@ -730,8 +824,41 @@ func (in *inst) do(st step) bool {
 		}
 	case "cancel":
 		w.rec("Cancel", "Cancel")
-		in.cancel()
+		if s.ctxKind == "dl_expire" || s.ctxKind == "dl_child" {
+			// the cancellation is the expiry of the deadline: it must come after the stamp
+			if in.ctx.Err() != nil {
+				in.expiredEarly = true
+				return true // the script took longer than the deadline: run again with a longer one
+			}
+			select {
+			case <-in.ctx.Done():
+			case <-time.After(bound(waitStep)):
+				w.note("deadline did not expire")
+			}
+		} else {
+			in.cancel()
+		}
 		in.cancelled = true
+	case "slow_open":
+		// raw client: request line and part of the headers only
+		c, err := net.DialTimeout("tcp", in.addr, 10*time.Second)
+		if err == nil {
+			c.SetDeadline(time.Now().Add(clientTimeout))
+			_, err = fmt.Fprintf(c, "GET /t%s/r?id=%d HTTP/1.1\r\nHost: %s\r\nX-Part: one\r\n", w.token, st.r, in.addr)
+		}
+		if err != nil {
+			w.note(fmt.Sprintf("slow_open %d: %v", st.r, err))
+		} else {
+			in.slow[st.r] = c
+		}
+	case "slow_finish":
+		c := in.slow[st.r]
+		o := "fail: never opened"
+		if c != nil {
+			o = w.finishSlow(c, s.flavor, st.r)
+			c.Close()
+		}
+		w.recOutcome(st.r, o, false)
 	case "late":
 		c := in.clFresh
 		if in.awaited {
